@@ -1,6 +1,6 @@
 """C17 - matcher failures fail the test and write nothing."""
 from runner import Prop
-import common
+import common, re
 from common import hx, unhx
 import gen as G
 
@@ -105,7 +105,14 @@ class C17(Prop):
                         must = (pth in known_bad and m_.get("errOnMissing", True) is not False and not (pth == "user.name" and case["meta"].get("api") != "yaml")) or m_.get("err") or pth in m_.get("expect_named", [])
                         # (named literally or in Go string syntax)
                         if must and pth.encode() not in text and pth.replace("\\", "\\\\").replace('"', '\\"').encode() not in text:
-                            fails.append({"msg": "obs %d: the failure does not name the failing path %s" % (bad[2], pth)})
+                            f_ = {"msg": "obs %d: the failure does not name the failing path %s" % (bad[2], pth)}
+                            # the path in another NOTATION (a JSON pointer /1/a for 1.a, $.a.b for a.b): its components, in order,
+                            # separated by punctuation - a matter of wording, reported as a broken tie (the model prints the caller's
+                            # own spelling)
+                            comps = [c_ for c_ in re.split(r"[.\[\]/$\\\"']+", pth) if c_]
+                            if comps and re.search(rb"[^A-Za-z0-9_]+".join(re.escape(c_.encode()) for c_ in comps), text):
+                                f_["tie"] = True
+                            fails.append(f_)
         if bad[1]["pre"] in ("matcherr", "invalid"):
             o = bad[3]
             if not o["outcome"].startswith("failed:") or o["errors"] != "1" or o["writes"] != "-" or fss[0][2] != fss[1][2]:
